@@ -145,6 +145,42 @@ def correspondences(tier, rng):
         return msg
     out.append(Corr("axis_map_forward", cases_f, lambda x: call(lambda: axis(x[0]).map_forward(x[1])), oracle=oracle_axis))
     out.append(Corr("axis_map_backward", cases_b, lambda x: call(lambda: axis(x[0]).map_backward(x[1])), oracle=oracle_axis))
+    # UFO 1/2 -> 3 conversion of kerning and groups
+    from fontTools.ufoLib.converters import convertUFO1OrUFO2KerningToUFO3Kerning
+    import copy
+    GLY = ["a", "b", "c", "d", "e"]; STEMS = ["A", "B", "x", "A1", "A2", "public.kern1.A", "L_A", "@MMK_L_A", "a"]
+    kcases = []
+    for _ in range(N(tier, 500, 6000)):
+        groups = {}
+        for _g in range(rng.randint(0, 6)):
+            nm = rng.choice(["@MMK_L_", "@MMK_R_", "", "", "@MMK_L_@MMK_L_", "public.kern1.", "public.kern2."]) + rng.choice(STEMS)
+            groups[nm] = rng.sample(GLY, rng.randint(0, 3))
+        names = GLY + list(groups) + ["zz"]
+        kerning = {}
+        for _k in range(rng.randint(0, 7)):
+            kerning.setdefault(rng.choice(names), {})[rng.choice(names)] = rng.randint(-90, 90)
+        glyphSet = GLY + (rng.sample(list(groups), 1) if groups and rng.chance(15) else [])       # a glyph may bear a group's name
+        kcases.append((list(kerning.items()), list(groups.items()), glyphSet))
+    cp = lambda s_: [ord(c) for c in s_]
+    def enc_k(x):
+        kerning, groups, glyphSet = x
+        return ([(cp(a), [(cp(b), v) for b, v in row.items()]) for a, row in kerning], [(cp(g), [cp(m) for m in mem]) for g, mem in groups], [cp(g) for g in glyphSet])
+    def impl_k(x):
+        kerning, groups, glyphSet = x
+        def go():
+            k, g, maps = convertUFO1OrUFO2KerningToUFO3Kerning(copy.deepcopy(dict(kerning)), copy.deepcopy(dict(groups)), set(glyphSet))
+            return ((([(cp(a), [(cp(b), v) for b, v in row.items()]) for a, row in k.items()], [(cp(n_), [cp(m) for m in mem]) for n_, mem in g.items()]),
+                     [(cp(a), cp(b)) for a, b in maps["side1"].items()]), [(cp(a), cp(b)) for a, b in maps["side2"].items()])
+        return res(go)
+    def oracle_k(x):
+        """the PROPERTY on the implementation: every renamed group gets its own new name, not one that exists already"""
+        kerning, groups, glyphSet = x
+        k, g, maps = convertUFO1OrUFO2KerningToUFO3Kerning(copy.deepcopy(dict(kerning)), copy.deepcopy(dict(groups)), set(glyphSet))
+        new = list(maps["side1"].values()) + list(maps["side2"].values())
+        if len(set(new)) != len(new): return "two groups were renamed to the same name: %r" % (maps,)
+        if any(n_ in dict(groups) for n_ in new): return "a group was renamed to an existing group's name: %r" % (maps,)
+        return None
+    out.append(Corr("convert_kerning", kcases, impl_k, enc=enc_k, oracle=oracle_k))
     return out
 
 def _f1_pattern(u, which):
@@ -381,4 +417,64 @@ def sweeps(tier, rng):
                 yield (("ufo", i, names[:4]), bad)
         finally:
             shutil.rmtree(tmp, ignore_errors=True)
-    return [Sweep("designspace", run_designspace), Sweep("plist", run_plist), Sweep("glif", run_glif), Sweep("ufo", run_ufo)]
+    def run_kerning_upconversion():
+        """UFO 1/2 -> 3 conversion of kerning and groups (what UFOReader does for old sources): every glyph pair keeps its kerning value"""
+        from fontTools.ufoLib.converters import convertUFO1OrUFO2KerningToUFO3Kerning
+        import copy
+        GLY = ["a", "b", "c", "d", "e", "f", "g", "h"]
+        STEMS = ["A", "B", "x", "A1", "public.kern1.A", "L_A"]
+        def value(kerning, groups1, groups2, l, r):
+            """UFO kerning lookup: glyph pair, then glyph/group and group/glyph, then group/group; groups1/2: glyph -> group of that side"""
+            g1 = groups1.get(l); g2 = groups2.get(r)
+            for a_, b_ in ((l, r), (l, g2), (g1, r), (g1, g2)):
+                if a_ is not None and b_ is not None and a_ in kerning and b_ in kerning[a_]: return kerning[a_][b_]
+            return 0
+        for i in range(n * 2):
+            # side-1 and side-2 groups, each glyph in at most one group per side; names with and without the UFO1 prefixes, some of
+            # which collapse to the same stem once the prefix is removed
+            groups = {}; side1 = {}; side2 = {}
+            gl1 = list(GLY); rng.shuffle(gl1); gl2 = list(GLY); rng.shuffle(gl2)
+            for k_ in range(rng.randint(0, 3)):
+                nm = rng.choice(["@MMK_L_", "", "", "@MMK_L_@MMK_L_"]) + rng.choice(STEMS)
+                if nm in groups or len(gl1) < 2: continue
+                mem = [gl1.pop(), gl1.pop()][: rng.randint(1, 2)]; groups[nm] = mem
+                for g_ in mem: side1[g_] = nm
+            for k_ in range(rng.randint(0, 3)):
+                nm = rng.choice(["@MMK_R_", "", "", "@MMK_R_@MMK_R_"]) + rng.choice(STEMS)
+                if nm in groups or len(gl2) < 2: continue
+                mem = [gl2.pop(), gl2.pop()][: rng.randint(1, 2)]; groups[nm] = mem
+                for g_ in mem: side2[g_] = nm
+            if rng.chance(30): groups["other"] = ["a", "b"]
+            firsts = GLY[:4] + sorted(set(side1.values())); seconds = GLY[:4] + sorted(set(side2.values()))
+            kerning = {}
+            for _k in range(rng.randint(1, 8)):
+                kerning.setdefault(rng.choice(firsts), {})[rng.choice(seconds)] = rng.randint(-90, 90) or 5
+            bad = None
+            try:
+                newK, newG, maps = convertUFO1OrUFO2KerningToUFO3Kerning(copy.deepcopy(kerning), copy.deepcopy(groups), set(GLY))
+                # the sides after conversion: membership of the renamed groups
+                n1 = {}; n2 = {}
+                for nm, mem in newG.items():
+                    if nm.startswith("public.kern1."):
+                        for g_ in mem: n1[g_] = nm
+                    if nm.startswith("public.kern2."):
+                        for g_ in mem: n2[g_] = nm
+                # groups that are used as a kerning side in the old data (the converter decides that from the pairs and the prefixes)
+                used1 = {nm for nm in groups if nm.startswith("@MMK_L_") or nm in kerning}
+                used2 = {nm for nm in groups if nm.startswith("@MMK_R_") or any(nm in v for v in kerning.values())}
+                o1 = {g_: nm for g_, nm in side1.items() if nm in used1}; o2 = {g_: nm for g_, nm in side2.items() if nm in used2}
+                for l in GLY:
+                    for r in GLY:
+                        v0 = value(kerning, o1, o2, l, r); v1 = value(newK, n1, n2, l, r)
+                        if v0 != v1:
+                            bad = "kerning of (%s, %s) is %r before and %r after the UFO2->3 conversion; groups %r kerning %r -> groups %r kerning %r rename %r" % (l, r, v0, v1, groups, kerning, newG, newK, maps); break
+                    if bad: break
+                if bad is None:
+                    names = list(maps["side1"].values()) + list(maps["side2"].values())
+                    if len(set(names)) != len(names) or any(nm in groups for nm in names):
+                        bad = "two groups were given the same new name (or an existing one): %r" % (maps,)
+            except Exception as e:
+                bad = "conversion raised %r on groups %r kerning %r" % (e, groups, kerning)
+            yield (("kerning-upconversion", i), bad)
+    return [Sweep("designspace", run_designspace), Sweep("plist", run_plist), Sweep("glif", run_glif), Sweep("ufo", run_ufo),
+            Sweep("kerning-upconversion", run_kerning_upconversion)]
